@@ -114,3 +114,4 @@ func (c Coll) build() (any, error) {
 	}
 	return collOf(c.Nil, items), nil
 }
+var digits = []string{"0", "1", "2", "3", "4", "5", "6", "7", "8", "9"}
